@@ -179,7 +179,8 @@ Qed.
 Lemma footprint_writes_sound :
   forall v c s, In s (op_steps v c) -> forall g l,
     other (fst (run s g l)) = other g /\
-    (~ In CellPrec (writes s) -> prec (fst (run s g l)) = prec g).
+    (~ In CellPrec (writes s) -> prec (fst (run s g l)) = prec g) /\
+    (~ In CellFlags (writes s) -> inexact (fst (run s g l)) = inexact g /\ rounded (fst (run s g l)) = rounded g).
 Proof.
   intros v c s H g l. destruct (in_op_steps v c s H) as [->|[->|[d Hd]]].
   - cbn. auto.
@@ -187,9 +188,11 @@ Proof.
   - destruct v; cbn in Hd.
     + destruct Hd as [<-|[<-|[<-|[]]]]; cbn.
       * destruct (failed l); cbn; [auto|]. destruct (df_prec d <? 1); cbn; [auto|].
-        split; [reflexivity|]. intros Hn. exfalso. apply Hn. left. reflexivity.
-      * destruct (failed l); cbn; auto.
-      * destruct (failed l); cbn; [auto|]. destruct (cur l); cbn; auto.
+        split; [reflexivity|]. split; [|auto]. intros Hn. exfalso. apply Hn. left. reflexivity.
+      * destruct (failed l); cbn; [auto|].
+        split; [reflexivity|]. split; [reflexivity|]. intros Hn. exfalso. apply Hn. left. reflexivity.
+      * destruct (failed l); cbn; [auto|]. destruct (cur l); cbn; [|auto].
+        split; [reflexivity|]. split; [reflexivity|]. intros Hn. exfalso. apply Hn. left. reflexivity.
     + destruct Hd as [<-|[]]; cbn.
       destruct (failed l); cbn; [auto|]. destruct (df_prec d <? 1); cbn; auto.
 Qed.
@@ -197,9 +200,9 @@ Qed.
 Lemma empty_writes_frame :
   forall v c s, In s (op_steps v c) -> writes s = [] -> forall g l, fst (run s g l) = g.
 Proof.
-  intros v c s H Hw g l. destruct (footprint_writes_sound v c s H g l) as [Ho Hp].
-  rewrite Hw in Hp. specialize (Hp (fun x => x)).
-  destruct (fst (run s g l)) as [p o], g as [p' o']. cbn in *. congruence.
+  intros v c s H Hw g l. destruct (footprint_writes_sound v c s H g l) as [Ho [Hp Hf]].
+  rewrite Hw in Hp, Hf. specialize (Hp (fun x => x)). destruct (Hf (fun x => x)) as [Hi Hr].
+  destruct (fst (run s g l)) as [p i r o], g as [p' i' r' o']. cbn in *. congruence.
 Qed.
 
 (** the declared read sets are sound: a step that does not read [prec] computes the
@@ -228,7 +231,7 @@ Qed.
 
 Lemma footprint_decimal_read_current :
   forall d, footprint (op_steps Current (CRead [d])) =
-            [([], [CellOther]); ([CellPrec], []); ([], [CellPrec]); ([], [CellPrec])].
+            [([], [CellOther]); ([CellPrec], []); ([CellFlags], [CellPrec]); ([CellFlags], [CellPrec])].
 Proof. reflexivity. Qed.
 
 (** with the repaired read_decimal every operation has an empty shared write set and never reads [prec] *)
@@ -282,10 +285,11 @@ Proof.
       rewrite E. rewrite advance_failed by reflexivity. cbn. auto.
     + destruct v.
       * assert (E : advance (List.length (dec_steps Current d)) g (mkL acc None false) (dec_steps Current d)
-                    = (set_prec g (df_prec d),
+                    = (add_flags (add_flags (set_prec g (df_prec d)) (create_flags (df_prec d) (df_unscaled d)))
+                                 (scaleb_flags (df_prec d) (create_decimal (df_prec d) (df_unscaled d)) (df_scale d)),
                        (mkL (scaleb (df_prec d) (create_decimal (df_prec d) (df_unscaled d)) (df_scale d) :: acc) None false, []))).
         { cbn. rewrite Ep. reflexivity. }
-        rewrite E. cbn [set_prec prec]. apply IH.
+        rewrite E. cbn [set_prec add_flags prec]. apply IH.
       * assert (E : advance (List.length (dec_steps Fixed d)) g (mkL acc None false) (dec_steps Fixed d)
                     = (g, (mkL (scaleb (df_prec d) (create_decimal (df_prec d) (df_unscaled d)) (df_scale d) :: acc) None false, []))).
         { cbn. rewrite Ep. reflexivity. }
